@@ -479,6 +479,11 @@ MUTANTS = [
            more=[_E_INIT, _E_CLEAR, (FIL, _E_SET_OLD, _E_SET_STALE)]),
     Mutant("verdicts-swapped", FIL, "        if result == PredicateResult.yes:\n            return True\n        if result == PredicateResult.no:\n            return False\n",
            "        if result == PredicateResult.yes:\n            return False\n        if result == PredicateResult.no:\n            return True\n", expect_rule="filter/predicate-verdicts"),
+    Mutant("replay-drains-history", BUF, "        for event in self._buffer:\n            otherObserver(event)", "        while self._buffer:\n            otherObserver(self._buffer.popleft())",
+           expect_rule="history/"),
+    Mutant("remove-observer-swaps-with-last", OBS, "        try:\n            self._observers.remove(observer)\n        except ValueError:\n            pass\n",
+           "        try:\n            i = self._observers.index(observer)\n        except ValueError:\n            return\n        self._observers[i] = self._observers[-1]\n        del self._observers[-1]\n",
+           expect_rule="publisher/registration-order-preserved"),
     Mutant("history-appendleft", BUF, "        self._buffer.append(event)", "        self._buffer.appendleft(event)", expect_rule="history/appends-at-the-end"),
     Mutant("history-replay-reversed", BUF, "        for event in self._buffer:", "        for event in reversed(self._buffer):", expect_rule="history/replays-forward"),
     Mutant("history-maxlen-off-by-one", BUF, "deque(maxlen=size)", "deque(maxlen=size and size - 1)", expect_rule="history/bounded-by-size"),
@@ -494,5 +499,7 @@ SILENT = [
     Silent("prefix-memo-flushed-on-every-change", FIL, _E_LOOKUP_OLD, _E_LOOKUP_NEW, more=[_E_INIT, _E_CLEAR, (FIL, _E_SET_OLD, _E_SET_FLUSH)]),
     Silent("level-decision-as-conditional-expression", FIL, "        if eventLevel < namespaceLevel:\n            return PredicateResult.no\n\n        return PredicateResult.maybe",
            "        return PredicateResult.no if eventLevel < namespaceLevel else PredicateResult.maybe"),
+    Silent("remove-observer-tests-membership", OBS, "        try:\n            self._observers.remove(observer)\n        except ValueError:\n            pass\n",
+           "        if observer in self._observers:\n            self._observers.remove(observer)\n"),
     Silent("history-positional-deque", BUF, "deque(maxlen=size)", "deque([], size)"),
 ]
